@@ -233,8 +233,18 @@ def _config_fields(ctx):
     return {f['n'] for v in a['variants'] for f in v['fields']}
 
 
-def _field_reads(sl, fields):
+def _field_reads(sl, fields, body=None):
     out = set()
+    if body is not None:
+        # closures built on the way (`cond.then(|| cfg.ttl ..)`): what they read from the configuration governs the value too
+        for _, _, node in sl:
+            rv = node.get('rv')
+            if rv and rv['k'] == 'agg' and rv.get('ak') == 'closure' and rv.get('def'):
+                for x in body.fb.bodies(body.crate):
+                    if x.id == rv['def']:
+                        for bb, blk in enumerate(x.blocks):
+                            nodes = [(None, None, st) for st in blk['st']] + ([(None, None, blk['term'])] if blk['term'] else [])
+                            out |= _field_reads(nodes, fields)
     for _, _, node in sl:
         places = []
         if 'rv' in node:
@@ -301,7 +311,11 @@ def r3_attribute_plumbing(ctx):
     # Session::finalize with the private helpers it was split into inlined (P13): every builder / setter call is then in one body, under
     # the branch conditions of its callers
     from ..inline import inlined
-    work = [inlined(ctx.fb, body)]
+    from ..inline import closures_of
+    ib = inlined(ctx.fb, body)
+    # .. and the closures of that code (`cond.then(|| build the cookie)`, `.map(|v| cookie.set_x(v))`): a setter inside a closure is
+    # governed by what the closure reads and by the conditions inside it
+    work = [ib] + [inlined(ctx.fb, x) for x in closures_of(ctx.fb, ib) if not x.is_coroutine]
     fin_body = body
     for body in work:
       defs = Defs(body)
@@ -325,7 +339,7 @@ def r3_attribute_plumbing(ctx):
               pl = op_place(a)
               if pl is not None:
                   sl, _ = backward_slice(body, pl['l'], defs)
-                  gov |= _field_reads(sl, fields)
+                  gov |= _field_reads(sl, fields, body)
                   state_reads |= _session_state_reads(sl)
           for sb, st in _controlling_switches(body, bb):
               pl = op_place(st['d'])
